@@ -501,6 +501,20 @@ func (x *Exec) execInstrs(fr *Frame, b *ssa.BasicBlock, idx int, st *State, k Ko
 				x.execBlock(fr, b.Succs[1], b, st, k)
 				return
 			}
+			if x.tapeMode {
+				// the mirror lemmas fork on many nil / zero tests that their pre-conditions decide
+				switch st.decided(c) {
+				case 1:
+					x.execBlock(fr, b.Succs[0], b, st, k)
+					return
+				case -1:
+					x.execBlock(fr, b.Succs[1], b, st, k)
+					return
+				}
+			}
+			if x.tapeMode && os.Getenv("GOCV_TRACE_FORKS") != "" {
+				fmt.Fprintf(os.Stderr, "if-fork %s: %s\n", x.posOf(in.Pos()), c.String())
+			}
 			st1 := st.clone()
 			st1.assume(c)
 			fr1 := fr.fork()
